@@ -245,15 +245,20 @@ def minimise(sim, cfg, ops, finding: Finding):
     ops = ddmin(sim, cfg, ops, key_str)
     shrink = getattr(sim, "shrink_ops", None)
     if shrink is not None:
-        for _ in range(3):
+        tests = 0
+        for _ in range(200):
             changed = False
             for cand in shrink(cfg, ops):
+                tests += 1
+                if tests > 3000:
+                    break
                 if _has_key(sim, cfg, cand, key_str):
                     ops = cand
                     changed = True
                     break
-            if not changed:
+            if not changed or tests > 3000:
                 break
+        ops = ddmin(sim, cfg, ops, key_str, budget=100)
     return ops, True
 
 
